@@ -418,6 +418,66 @@ def case_gmrf(rng):
                 value=float(v.detach()), grad=gr, expr=f"show_d ({e})")
 
 
+def declared_gradients_findings(rng):
+    """Parameters DECLARED differentiable in the specification ("requires_grad": true), with no dtype, with the run's
+    dtype and with another one (a float32 parameter in a float64 run): after backward() every one of them holds a
+    gradient, equal to the numerical derivative of the returned value (float32 parameters: to single precision)."""
+    torch = impl.load()
+    from torchtree.core.utils import process_object
+    found, n = {}, 0
+    for dt in (None, "torch.float64", "torch.float32"):
+        def par(id_, vals):
+            d = {"id": id_, "type": "Parameter", "tensor": vals, "requires_grad": True}
+            if dt:
+                d["dtype"] = dt
+            return d
+        x0 = [round(rng.uniform(0.4, 2.0), 3) for _ in range(3)]
+        loc0 = [round(rng.uniform(-0.5, 0.5), 3)]
+        objs = [par("x", x0), par("loc", loc0),
+                {"id": "d1", "type": "Distribution", "distribution": "torch.distributions.LogNormal", "x": "x",
+                 "parameters": {"loc": "loc", "scale": 0.8}},
+                {"id": "d2", "type": "Distribution", "distribution": "torch.distributions.Normal", "x": "loc",
+                 "parameters": {"loc": 0.0, "scale": 2.0}},
+                {"id": "joint", "type": "JointDistributionModel", "distributions": ["d1", "d2"]}]
+        try:
+            dic = {}
+            for o in objs:
+                process_object(o, dic)
+            v = dic["joint"]()
+            v.sum().backward()
+        except Exception as e:  # noqa
+            k = f"C12:declared-gradient:raises:{type(e).__name__}"
+            found.setdefault(k, (k, f"dtype {dt}: {type(e).__name__}: {str(e)[:160]}", dict(dtype=dt)))
+            continue
+
+        def value(xv, lv):
+            lx = [math.log(t) for t in xv]
+            a = sum(-((t - lv[0]) ** 2) / (2 * 0.64) - math.log(0.8) - 0.5 * math.log(2 * math.pi) - t for t in lx)
+            return a - lv[0] ** 2 / 8.0 - math.log(2.0) - 0.5 * math.log(2 * math.pi)
+        # exact gradients of this joint (closed form)
+        want = {"x": [(-(math.log(t) - loc0[0]) / 0.64 - 1.0) / t for t in x0],
+                "loc": [sum((math.log(t) - loc0[0]) / 0.64 for t in x0) - loc0[0] / 4.0]}
+        tol = 2e-3 if dt == "torch.float32" else 1e-8
+        if abs(float(v.sum()) - value(x0, loc0)) > tol * max(1.0, abs(value(x0, loc0))):
+            k = "C12:declared-gradient:value"
+            found.setdefault(k, (k, f"dtype {dt}: joint = {float(v.sum())!r}, closed form {value(x0, loc0)!r}", dict(dtype=dt)))
+        for pid in ("x", "loc"):
+            n += 1
+            g = dic[pid].grad
+            if g is None:
+                k = f"C12:missing-gradient:declared-in-the-specification:dtype={dt}"
+                found.setdefault(k, (k, f"parameter `{pid}' is declared with requires_grad true (dtype {dt}) but holds no "
+                                        f"gradient after backward(); the derivative of the returned value is {want[pid]}",
+                                     dict(dtype=dt, objects=objs, parameter=pid)))
+                continue
+            gl = [float(t) for t in g.reshape(-1)]
+            if any(abs(a - b) > tol * max(1.0, abs(b)) for a, b in zip(gl, want[pid])):
+                k = f"C12:wrong-gradient:declared-in-the-specification:dtype={dt}"
+                found.setdefault(k, (k, f"parameter `{pid}' (dtype {dt}): gradient {gl} but the derivative is {want[pid]}",
+                                     dict(dtype=dt, objects=objs, parameter=pid)))
+    return list(found.values()), n
+
+
 def run(tier, seed, replay=None):
     torch = impl.load()
     rep = C.Report(PID, tier, seed)
@@ -477,6 +537,9 @@ def run(tier, seed, replay=None):
                                                 f"derivative of the returned value is {fd!r} (+-{err:.1e})",
                                              dict(scenario=desc, density=dname, parameter=pname, coordinate=i,
                                                   autograd=gi, finite_difference=fd)))
+    dg_fs, n_declared = declared_gradients_findings(rng)
+    for f in dg_fs:
+        found.setdefault(f[0], f)
     rep.timings["impl_fd"] = round(time.time() - t0, 2)
 
     def search():
